@@ -447,6 +447,13 @@ def check_apply(ctx, din, dout, r, cp, cplx, extra_form=None, basis=None, seed=N
             ok = False
             ctx.violation(f"apply_channel[{name}]: output differs from sum_i A_i X B_i^dagger (model agree={good_model}, oracle agree={good_spec})",
                           dict(info, impl=safe_jmat(impl[1]), model=model))
+        # linear in the input operator, at any norm: X * 2^-40 must give Phi(X) * 2^-40 exactly (applyKraus_eq_spec)
+        if seed % 3 == 1:
+            outs = call(apply_channel, np.asarray(X) * 2.0 ** -40, pobj)
+            ctx.count("apply/scaled-input/2^-40")
+            if outs[0] != "ok" or not np.array_equal(np.asarray(outs[1]), np.asarray(impl[1]) * 2.0 ** -40):
+                ok = False
+                ctx.violation(f"apply_channel[{name}]: the input scaled by 2^-40 does not give the output scaled by 2^-40", dict(info, scale_exp=-40))
         # ---- Kraus -> Choi
         if name == "triples":
             continue  # channel_dim documents only the four forms
